@@ -116,6 +116,35 @@ def search(rep: C.Report, tier: str, broken):
             rep.violation(f"WallGoManager results are not covariant under the unit factor {u}: {bad}",
                           {"unit_factor": u, "base": mbase, "scaled": got, "differing": bad,
                            "how": "harness/manager_common.new_manager(20, 1e-3, u=u).solveWall(settings())"}, finding_key=f"C07:manager:{','.join(sorted(bad))}")
+    # the SAME model object solved again in other units: parameters updated in place and setupThermodynamicsHydrodynamics re-run with all
+    # inputs (Tn, phase guesses, variation scales) rescaled, as its docstring asks whenever details of the model change
+    m = MC.new_manager(20, 1e-3, u=1.0)
+    first = m.solveWall(MC.settings())
+    for u in ((0.05,) if tier == "quick" else (0.05, 20.0, 0.3)):
+        m.model.getEffectivePotential().unit = u
+        rep.case(key=("manager-same-model", u))
+        rep.count("manager re-setup of the same model in other units")
+        try:
+            MC.setup(m, 1.15, u)
+            res = m.solveWall(MC.settings())
+        except Exception as ex:  # noqa: BLE001
+            rep.violation(f"re-running the setup of the same model with all dimensionful inputs multiplied by {u} fails",
+                          {"unit_factor": u, "error": f"{type(ex).__name__}: {str(ex)[:300]}"}, finding_key="C07:manager-same-model:raises")
+            continue
+        th = m.thermodynamics
+        got = {"vJ": float(m.hydrodynamics.vJ), "vw": res.wallVelocity, "TMaxLowT/Tn": th.TMaxLowT / (1.15 * u), "TMinLowT/Tn": th.TMinLowT / (1.15 * u),
+               "widths*Tn": (np.asarray(res.wallWidths) * 1.15 * u).tolist()}
+        fresh_m = MC.new_manager(20, 1e-3, u=u)
+        fr_ = fresh_m.solveWall(MC.settings())
+        want = {"vJ": float(fresh_m.hydrodynamics.vJ), "vw": fr_.wallVelocity, "TMaxLowT/Tn": fresh_m.thermodynamics.TMaxLowT / (1.15 * u),
+                "TMinLowT/Tn": fresh_m.thermodynamics.TMinLowT / (1.15 * u), "widths*Tn": (np.asarray(fr_.wallWidths) * 1.15 * u).tolist()}
+        bad = [q for q, t in (("vJ", 1e-6), ("TMaxLowT/Tn", 1e-4), ("TMinLowT/Tn", 1e-4)) if abs(got[q] - want[q]) > t * abs(want[q])]
+        if got["vw"] is None or want["vw"] is None or abs(got["vw"] - want["vw"]) > 2e-3:
+            bad.append("vw")
+        if bad:
+            rep.violation(f"the same model object re-solved with all dimensionful inputs multiplied by {u} differs from a fresh model in those units: {bad}",
+                          {"unit_factor": u, "reused_model": got, "fresh_model": want, "differing": bad, "first_solve_velocity": first.wallVelocity},
+                          finding_key=f"C07:manager-same-model:{','.join(sorted(bad))}")
     # two-field GeV-like model (Tn = 100 u) through the manager: offsets and both widths as well
     def xrun(u):
         m, _model = MC.new_xsm_manager(u=u)
